@@ -10,7 +10,8 @@ from .extract import VERIF, GEN, SRC, AnalysisBroken
 def compile_witness(ck, rule, src, extra_flags=(), compilers=("clang++",), steps=400000000):
     """compiles /verif/witness/<src> with -fsyntax-only; a failing static_assert is a violation (its message names
     the law), any other diagnostic is 'analysis broken'"""
-    path = os.path.join(VERIF, "witness", src)
+    path = src if os.path.isabs(src) else os.path.join(VERIF, "witness", src)
+    src = os.path.basename(src)
     n_asserts = len(re.findall(r"\bstatic_assert\s*\(", open(path).read()))
     for cxx in compilers:
         cmd = [cxx, "-fsyntax-only", "-std=gnu++17", "-DNDEBUG", "-I" + SRC, "-I" + GEN, "-ferror-limit=0" if "clang" in cxx else "-fmax-errors=0"]
@@ -41,3 +42,27 @@ def compile_witness(ck, rule, src, extra_flags=(), compilers=("clang++",), steps
         ck.count("static_asserts_" + src, n_asserts)
         ck.samples.append({"witness": src, "compiler": cxx, "static_asserts": n_asserts, "failed": sorted(seen), "seconds": round(dt, 1)})
     return n_asserts
+
+
+def function_text(path, line, name):
+    """source text of the function definition `name` that starts at `line` of `path` (declarator through the matching
+    closing brace), comments stripped"""
+    lines = open(path).read().split("\n")
+    txt = "\n".join(lines[line - 1:])
+    # back up to the start of the declaration when the declarator spans lines
+    if name not in lines[line - 1]:
+        raise AnalysisBroken("%s:%d does not start the definition of %s" % (path, line, name))
+    txt = re.sub(r"//[^\n]*", "", txt)
+    txt = re.sub(r"/\*.*?\*/", "", txt, flags=re.S)
+    i = txt.find("{")
+    if i < 0:
+        raise AnalysisBroken("%s:%d: no body found for %s" % (path, line, name))
+    depth = 0
+    for j in range(i, len(txt)):
+        if txt[j] == "{":
+            depth += 1
+        elif txt[j] == "}":
+            depth -= 1
+            if depth == 0:
+                return txt[:j + 1]
+    raise AnalysisBroken("%s:%d: unbalanced braces in %s" % (path, line, name))
